@@ -63,6 +63,16 @@ theorem ctlGoal_iff {t : Term} : ctlGoal t = true ↔ Ctl t := by
     | ifthen c t hx => subst hx; simp [ctlGoal]
     | once x hx => subst hx; rfl
     | neg x hx => subst hx; rfl
+    | callN x e es hx hl => subst hx; simpa [ctlGoal] using hl
+    | disj a b hx ha =>
+      subst hx
+      unfold ctlGoal
+      split <;> simp_all [disjHead]
+
+theorem disjHead_rename (ρ : Nat → Nat) (a : Term) : disjHead (a.rename ρ) = disjHead a := by
+  cases a with
+  | app f as => simp [Term.rename, Term.subst, disjHead, Args.length_subst]
+  | _ => rfl
 
 theorem ctl_rename {t : Term} (ρ : Nat → Nat) (h : Ctl t) : Ctl (t.rename ρ) := by
   cases h with
@@ -71,6 +81,12 @@ theorem ctl_rename {t : Term} (ρ : Nat → Nat) (h : Ctl t) : Ctl (t.rename ρ)
   | ifthen c t hx => subst hx; exact .ifthen (c.rename ρ) (t.rename ρ) rfl
   | once x hx => subst hx; exact .once (x.rename ρ) rfl
   | neg x hx => subst hx; exact .neg (x.rename ρ) rfl
+  | callN x e es hx hl =>
+    subst hx
+    exact .callN (x.rename ρ) (e.rename ρ) (es.rename ρ) rfl (by rw [Args.rename, Args.length_subst]; exact hl)
+  | disj a b hx ha =>
+    subst hx
+    exact .disj (a.rename ρ) (b.rename ρ) rfl (by rw [disjHead_rename]; exact ha)
 
 theorem ctl_of_rename {t : Term} (ρ : Nat → Nat) (h : Ctl (t.rename ρ)) : Ctl t := by
   cases h with
@@ -105,6 +121,20 @@ theorem ctl_of_rename {t : Term} (ρ : Nat → Nat) (h : Ctl (t.rename ρ)) : Ct
     obtain ⟨a', bs', rfl, _, hb⟩ := subst_eq_cons has
     rw [subst_eq_nil hb]
     exact .neg _ rfl
+  | callN x e es hx hl =>
+    obtain ⟨as', rfl, has⟩ := rename_eq_app hx
+    obtain ⟨a', bs', rfl, _, hb⟩ := subst_eq_cons has
+    obtain ⟨e', bs'', rfl, _, hb'⟩ := subst_eq_cons hb
+    exact .callN _ _ _ rfl (by rw [← hb', Args.length_subst] at hl; exact hl)
+  | disj a b hx ha =>
+    obtain ⟨as', rfl, has⟩ := rename_eq_app hx
+    obtain ⟨a', bs', rfl, ha', hb⟩ := subst_eq_cons has
+    obtain ⟨e', bs'', rfl, _, hb'⟩ := subst_eq_cons hb
+    rw [subst_eq_nil hb']
+    refine .disj _ _ rfl ?_
+    rw [← disjHead_rename ρ a']
+    rw [← ha'] at ha
+    exact ha
 
 theorem ctlGoal_rename (ρ : Nat → Nat) (t : Term) : ctlGoal (t.rename ρ) = ctlGoal t := by
   rw [Bool.eq_iff_iff, ctlGoal_iff, ctlGoal_iff]
